@@ -697,3 +697,43 @@ V("C11-prefixed-seek-zero","C11",FT+"util.go","""	if offset == skipBytes {
 ""","",rule="C11.R5")
 V("C11-new-mode-unhandled","C11","pkg/local_object_storage/blobstor/common/storage.go","	PayloadRangeModeSuffix\n","	PayloadRangeModeSuffix\n\tPayloadRangeModeAround\n",rule="C11.R3")
 V("C11-silent-reordered-test","C11","pkg/local_object_storage/blobstor/common/storage.go","		if r.First > r.Second || r.First >= payloadLen {","		if payloadLen <= r.First || r.Second < r.First {",expect="silent")
+
+# ---- C19
+EN="pkg/local_object_storage/engine/"
+V("C19-skip-when-no-target","C19",EN+"evacuate.go","""					return count, fmt.Errorf("%w: %s", errPutShard, lst[i])
+				}
+""","""					if ignoreErrors {
+						continue
+					}
+					return count, fmt.Errorf("%w: %s", errPutShard, lst[i])
+				}
+""",rule="C19.R2")
+V("C19-get-errors-always-ignored","C19",EN+"evacuate.go","""				if err != nil {
+					if ignoreErrors {
+						continue
+					}
+					return count, err
+				}
+
+				if iec.ObjectWithAttributes""","""				if err != nil {
+					continue
+				}
+
+				if iec.ObjectWithAttributes""",rule="C19.R2")
+V("C19-fault-handler-error-dropped","C19",EN+"evacuate.go","""				err = faultHandler(addr, obj)
+				if err != nil {
+					return count, err
+				}
+				count++""","""				_ = faultHandler(addr, obj)
+				count++""",rule="C19.R2")
+V("C19-drained-shard-deleted-from","C19",EN+"evacuate.go","""					if err == nil {
+						e.log.Debug("object is moved to another shard",""","""					if err == nil {
+						_ = sh.Delete(addr.Container(), []oid.ID{addr.Object()})
+						e.log.Debug("object is moved to another shard",""",rule="C19.R1")
+V("C19-not-readonly-allowed","C19",EN+"evacuate.go","""		if !sh.GetMode().ReadOnly() {
+			e.mtx.RUnlock()
+			return 0, shard.ErrMustBeReadOnly
+		}""","""		if !sh.GetMode().ReadOnly() && ignoreErrors {
+			e.mtx.RUnlock()
+			return 0, shard.ErrMustBeReadOnly
+		}""",rule="C19.R4")
